@@ -256,10 +256,13 @@ bool File::copy(const String& src, const String& destination, bool failIfExists)
       return false;
     }
     off64_t size = lseek(fd, 0, SEEK_END);
-    if(size < 0)
+    if(size < 0 || lseek(fd, 0, SEEK_SET) < 0)
+    {
+      int err = errno;
+      ::close(fd); // do not leak the source descriptor
+      errno = err;
       return false;
-    if(lseek(fd, 0, SEEK_SET) < 0)
-      return false;
+    }
     int dest = ::open(destination, failIfExists ? (O_CREAT | O_EXCL | O_CLOEXEC | O_TRUNC | O_WRONLY) : (O_CREAT | O_CLOEXEC | O_TRUNC | O_WRONLY), S_IRUSR | S_IWUSR | S_IRGRP | S_IROTH);
     if(dest == -1)
     {
